@@ -161,6 +161,9 @@ def run(ctx):
     g = I.call(fm, [f], {"density": d})
     eq(ctx, "R2", "formula(Formula, density=d) overrides", I.getattr(g, "density"), d, s_fm)
     g = I.call(fm, [f], {"natural_density": d})
+    g0 = I.call(fm, [g], {"density": sp.Integer(0)})
+    ctx.check(I.getattr(g0, "density") == 0, "R2", "formula(Formula, density=0) overrides too (zero is a density, not 'not given')",
+              f"density {_s(I.getattr(g0, 'density'))}", s_fm)
     eq(ctx, "R2", "formula(Formula, natural_density=d) overrides", I.getattr(g, "density"), d / ratio, s_fm)
     # tags through the parse actions
     pairs = [(q[0], a), (q[1], O)]
@@ -196,7 +199,7 @@ def run(ctx):
     twice = I.call(fm, [[(sp.Integer(1), Fe_), (sp.Integer(2), Fe_)]], {})
     eq(ctx, "R2", "a single atom written as several groups keeps that atom's density", I.getattr(twice, "density"), I.getattr(Fe_, "density"),
        fsite(ctx, "formulas.Formula.__init__"))
-    ctx.floor("R2", 22)
+    ctx.floor("R2", 23)
 
     # ---- R3 isotope substitution ---------------------------------------------
     s_sub = fsite(ctx, "formulas._isotope_substitution")
